@@ -69,7 +69,10 @@ def do_op(op):
         if kind == "cli":
             import cli_workers
             r = cli_workers.run_cli(({"h.css": op[1].encode()}, "h.css", op[2]))
-            return ["cli", r["stdout"], (r["after"].get("h_cm.css") or (None, b""))[1].decode("utf-8", "replace")]
+            import re as _re
+            # the report line prints an absolute path inside the per-run scratch directory
+            out = _re.sub(r"Report generated: .*", "Report generated: <path>", r["stdout"])
+            return ["cli", out, (r["after"].get("h_cm.css") or (None, b""))[1].decode("utf-8", "replace")]
     except Exception as e:  # noqa
         return ["raise", type(e).__name__]
     return ["?"]
